@@ -18,6 +18,7 @@ import ArvVerif.Proofs.C05Setup
 import ArvVerif.Proofs.C05Plan
 import ArvVerif.Proofs.C05Enum
 import ArvVerif.Proofs.C05BlockState
+import ArvVerif.Proofs.C05_Comparator
 import ArvVerif.Proofs.C05Witness
 namespace ArvVerif.C05
 
@@ -45,6 +46,25 @@ theorem C05_hypothesis_covers_sort_and_model (env : Env) (classes : List Class)
     ((∀ c l, ∃ rs, allSorted (less env c) l = some rs ∧ sorter c l ∈ rs) →
       BalancePerm env classes sorter mounts reps) :=
   ⟨BalanceOK.toPerm, fun h => runPerm_of_enumerated env sorter h classes _⟩
+
+/-- The comparator balanceBlock hands to `sort.Slice` is a strict weak order whenever
+`rendezvousLess` compares a weight of the device id (it compares MD5 digests; the driver's
+`devLess` is of this form), and then the model's enumeration of sort results is EXACT: the lists it
+produces for a class iteration are precisely the permutations of the slots that are sorted w.r.t.
+the comparator — everything an unstable sort may return and nothing else. So the correspondence
+check's membership test `implementation ∈ allowed(model)` neither misses an admissible behaviour
+(no false alarm) nor admits an inadmissible one. -/
+theorem C05_enumeration_exact (env : Env) (c : Class) (hw : DevLessByWeight env)
+    (l : List Slot) (rs : List (List Slot)) (h : allSorted (less env c) l = some rs) (r : List Slot) :
+    StrictWeak (less env c) ∧ (r ∈ rs ↔ IsSorted (less env c) l r) :=
+  ⟨less_strictWeak env c hw, allSorted_exact (less_strictWeak env c hw) l rs h r⟩
+
+/-- non-vacuity: two blank-device mounts of one server compare equal, so there are exactly two
+sorted orders; the witnesses' `devLess` is a weight comparison -/
+example : DevLessByWeight okEnv ∧
+    (allSorted (less okEnv 0) (initSlots [mkMount 0 0 0 [0], mkMount 1 0 0 [0], mkMount 2 1 0 [0]] [])).map
+      (fun rs => rs.map (fun r => r.map (fun s => s.mnt.id))) = some [[0, 1, 2], [1, 0, 2]] :=
+  ⟨⟨fun d => d, fun _ _ => rfl⟩, by decide⟩
 
 /-! ## trash: age -/
 
